@@ -138,7 +138,11 @@ func c18W2(c *ev.Ctx) {
 	var path string
 	if r.Bool() {
 		path = filepath.Join(c.Dir, "shared.h5")
-		hx.Run(path, c07LibScript(r.Intn(c07LibSeeds)))
+		sc := c07LibScript(r.Intn(c07LibSeeds))
+		if r.Bool() {
+			sc.SB = 0 // old-style groups: symbol table nodes and local heaps go through the buffer pool
+		}
+		hx.Run(path, sc)
 	} else {
 		path = c07Seeds[r.Intn(len(c07Seeds))]
 	}
@@ -152,7 +156,7 @@ func c18W2(c *ev.Ctx) {
 		go func(i int) {
 			defer wg.Done()
 			<-start
-			for k := 0; k < 3; k++ {
+			for k := 0; k < 6; k++ {
 				got[i] = dumpText(path)
 			}
 		}(i)
@@ -474,17 +478,17 @@ var C18 = &ev.Property{
 	ID:    "C18",
 	Level: "exploration",
 	Race:  true,
-	Rule: "all workloads run in a binary built with the race detector; every detector report is a violation keyed by the first library frames of its two stacks. W1: 2-32 goroutines, each writing its own file from its own history and reading it back (shared state reached: buffer pool, datatype registry), compared with the sequential run; W2: 2-16 readers with their own Open handle on one file (corpus or library-written), three complete dumps each, compared with the sequential dump; W3: one WritableBTreeV2 with lazy + incremental rebalancing (ticker 1 us - 1 ms, budgets 1 us - 10 ms, with and without progress callback), ONE foreground goroutine doing 2000 (thorough 6000) inserts, lazy deletes across the batch threshold, statistics and progress queries, stop and re-enable; every stop must return, afterwards no library goroutine may be left (bounded wait 4 s); W4: SmartRebalancer (re-evaluation every 100 us; in half of the cases with a detector whose sliding window is 2 or 10 ms, with idle phases that let events expire followed by reader-only calls) over a real B-tree, 2-8 goroutines calling RecordOperation/Evaluate/GetStats/GetMetrics plus MetricsCollector.RecordOperation/Snapshot whose history is checked for linearizability against a counter model (porcupine), Stop, restart, cancel through the context, goroutine census; W5: FileWriter created with each rebalancing configuration, an attribute history with runtime toggles, background mode left running or not, Close, goroutine census. " +
+	Rule: "all workloads run in a binary built with the race detector; every detector report is a violation keyed by the first library frames of its two stacks. W1: 2-32 goroutines, each writing its own file from its own history and reading it back (shared state reached: buffer pool, datatype registry), compared with the sequential run; W2: 2-16 readers with their own Open handle on one file (corpus or library-written), six complete dumps each, compared with the sequential dump; W3: one WritableBTreeV2 with lazy + incremental rebalancing (ticker 1 us - 1 ms, budgets 1 us - 10 ms, with and without progress callback), ONE foreground goroutine doing 2000 (thorough 6000) inserts, lazy deletes across the batch threshold, statistics and progress queries, stop and re-enable; every stop must return, afterwards no library goroutine may be left (bounded wait 4 s); W4: SmartRebalancer (re-evaluation every 100 us; in half of the cases with a detector whose sliding window is 2 or 10 ms, with idle phases that let events expire followed by reader-only calls) over a real B-tree, 2-8 goroutines calling RecordOperation/Evaluate/GetStats/GetMetrics plus MetricsCollector.RecordOperation/Snapshot whose history is checked for linearizability against a counter model (porcupine), Stop, restart, cancel through the context, goroutine census; W5: FileWriter created with each rebalancing configuration, an attribute history with runtime toggles, background mode left running or not, Close, goroutine census. " +
 		"non-trivial: every case; distinct = (workload, parameters).",
 	Assumptions: []string{"the race detector generalises over orderings of the accesses it observed (happens-before), not over paths that were not executed"},
 	Cases: func(tier string) int {
 		if tier == "thorough" {
-			return 500
+			return 1000
 		}
-		return 50
+		return 100
 	},
 	Run:        c18Run,
 	Floor:      func(tier string) int64 { return 20 },
 	CPUPerCase: 300,
-	MaxProcs:   4,
+	MaxProcs:   8,
 }
